@@ -71,7 +71,7 @@ def gen(prop, stream, tier, avoid):
     conts = []
     for _ in range(ncont):
         conts.append({"kind": rng.pick([o["kind"] for o in objs]), "delta": rng.pick([0.5, 0.25, 0.2])})
-    nops = kn.pick([3, 4, 5, 6, 8, 10, 12, 16, 20, 30])
+    nops = kn.pick([3, 4, 5, 6, 8, 10, 12, 16, 20, 30] + ([45, 60] if tier == "thorough" else []))
     w_read = kn.uniform(1.0, 4.0)
     w_edit = kn.uniform(1.0, 3.0)
     w_cont = kn.uniform(0.5, 2.0) if conts else 0.0
